@@ -333,7 +333,7 @@ def check_program(ctx, rng, kind, fields, modes, recipe_extra=(), skip=()):  # n
             for f in fields:
                 if f.req == "req" or f in present:
                     key = f.name[:-1] if f.name.endswith("_") else f.name
-                    data[key] = _input_for(f)
+                    data[key] = _input_for(f, rng)
             given = {f.name: data[f.name[:-1] if f.name.endswith("_") else f.name] for f in fields if (f.req == "req" or f in present)}
             # what the model itself produces when called with only the present fields
             LOG.clear()
@@ -442,7 +442,15 @@ def check_program(ctx, rng, kind, fields, modes, recipe_extra=(), skip=()):  # n
                                           f"returned, a new load holds {bad[1]!r}, the model itself produces {bad[2]!r}", {**desc, "data": repr(data)})
 
 
-def _input_for(f):
+_FALSY_INPUTS = (None, None, 0, "", False, [], {}, 0.0)
+
+
+def _input_for(f, rng=None):
+    if f.req != "req" and rng is not None and rng.random() < 0.3:
+        # a PRESENT optional field whose loaded value is None / falsy: it is a value, not an absence (seeded change: `value = data.get(key)` /
+        # `if value is None` in the DISABLE extraction of the first optional key)
+        v = rng.choice(_FALSY_INPUTS)
+        return type(v)() if isinstance(v, (list, dict)) else v
     return {"n": f.name, "v": [1, 2]} if f.req != "req" else f"req-{f.name}"
 
 
@@ -544,6 +552,61 @@ def _several_lookalike_defaults_in_one_model(ctx):
             check_program(ctx, rng, kind, fields, MODES[:2])
 
 
+def _lookalike_container_defaults(ctx):
+    """Tuples and frozensets whose ELEMENTS are look-alikes of each other ((0, 0) == (False, False) == (Decimal(0), Decimal(0)),
+    frozenset({1}) == frozenset({True})), as defaults of several fields of one model and of models loaded one after the other in one process
+    (seeded change: rendered literals of tuples / frozensets memoised in a dict keyed by the container itself, i.e. by == of the elements)."""
+    import random  # noqa: PLC0415
+    from decimal import Decimal  # noqa: PLC0415
+    from fractions import Fraction  # noqa: PLC0415
+
+    rng = random.Random(0)
+    groups = [
+        [(0, 0), (False, False), (Decimal(0), Decimal(0)), (0.0, 0.0), (Fraction(0), 0)],
+        [(1,), (True,), (1.0,), (IE8.O,), (Decimal(1),)],
+        [frozenset({1}), frozenset({True}), frozenset({1.0}), frozenset({Decimal(1)})],
+        [((1,), 0), ((True,), False), ((1.0,), -0.0)],
+        [(0, ""), (False, SE8.E), (IE8.Z, StrSub(""))],
+        [(1, frozenset({0})), (True, frozenset({False}))],
+    ]
+    for vals in groups:
+        for order in (vals, list(reversed(vals))):
+            for kind in ("dataclass", "namedtuple", "init", "attrs"):
+                # all look-alikes in one model ...
+                check_program(ctx, rng, kind, [FSpec("a", "req")] + [FSpec(f"d{i}", "default", v) for i, v in enumerate(order)], MODES[:1])
+            # ... and one model per look-alike, loaded one after the other (a memo outlives the request)
+            for i, v in enumerate(order):
+                check_program(ctx, rng, ("dataclass", "init", "namedtuple")[i % 3], [FSpec("a", "req"), FSpec("b", "default", v)], MODES[:1])
+
+
+def _present_none_and_falsy_values(ctx):
+    """Optional fields PRESENT in the input with None / a falsy value, first and later fields of the model, every mode: the constructor receives the
+    loaded value, never the default (seeded change: DISABLE extraction of the first optional key by `data.get(key)` + `is None`)."""
+    import random  # noqa: PLC0415
+
+    class _Fixed:
+        def __init__(self, seq):
+            self.seq, self.i = seq, 0
+
+        def random(self):
+            return 0.0
+
+        def choice(self, _pool):
+            self.i += 1
+            return self.seq[self.i % len(self.seq)]
+
+        def sample(self, pop, k):
+            return random.Random(0).sample(pop, k)
+
+        def randint(self, a, b):
+            return a
+    for falsy in ([None], [0], [""], [False], [None, 0, "", False, [], {}]):
+        for kind in ("dataclass", "namedtuple", "init", "attrs"):
+            for fields in ([FSpec("t", "default", 30.0), FSpec("r", "default", 3)], [FSpec("t", "default", 30.0)], [FSpec("q", "req"), FSpec("t", "default", (1,)), FSpec("u", "default", "x")],
+                           [FSpec("t", "factory", _counting("list", list), "list"), FSpec("u", "default", True)] if kind != "namedtuple" else [FSpec("t", "default", 1.5), FSpec("u", "default", True)]):
+                check_program(ctx, _Fixed(falsy), kind, fields, MODES)
+
+
 def _attrs_parameters_named_unlike_their_attributes(ctx):
     """attrs lets a constructor PARAMETER be named unlike the attribute (private `_count` -> `count`, alias=), and a
     Factory(takes_self=True) default can only be evaluated by the constructor, so such a field is passed only when present - under the
@@ -579,6 +642,7 @@ def _attrs_parameters_named_unlike_their_attributes(ctx):
 
 
 DIRECTED = {"default-pool-sweep": _pool_sweep, "several-lookalike-defaults-in-one-model": _several_lookalike_defaults_in_one_model,
+            "lookalike-container-defaults": _lookalike_container_defaults, "present-none-and-falsy-values": _present_none_and_falsy_values,
             "attrs-parameters-named-unlike-their-attributes": _attrs_parameters_named_unlike_their_attributes}
 from ..suite_leg import make as _suite_leg  # noqa: E402
 
